@@ -221,6 +221,17 @@ from vf.props import c02 as _c02  # noqa: E402
 PLAN_DUAL = _c02.make_dual_plan('C13')
 
 
+def _vmsa_plan():
+    # the alignment policy under VMSA: unaligned accesses are checked byte by byte against the attributes of the page each byte lies in (Normal next to
+    # Device / Strongly-ordered pages, permissions, missing pages) - C15's table builder and windows, judged here for the access model
+    from vf.props import c15
+    return e1prop.Plan('C13', c15.ROWS, cfgs=c15.PLAN.cfgs, classify=classify_ls, tweak_case=c15.tweak, hooked=(True, True, False),
+                       nontrivial=lambda res: res.status == 'abort' or e1prop.default_nontrivial(res), case_kw=c15.PLAN.case_kw)
+
+
+PLAN_VMSA = _vmsa_plan()
+
+
 def run(ctx):
     ctx.rule = ('Direct calls of mem_a_get/set, mem_u_get/set, mem_u_unpriv_get/set for the complete matrix size {1,2,4,8} x address offset 0..7 x base '
                 '{mid-device, just below a device end, just below 2^32 (wrap to 0), 0, across the boundary of two abutting devices, inside the overlap of two devices with an access to the other one between store and load} x CPSR.E x SCTLR.A x SCTLR.U (where the architecture version has '
@@ -237,6 +248,7 @@ def run(ctx):
     tasks += [(e1prop.shard, ('vf.props.c13:PLAN', ctx.shard_seed(200 + i), ctx.n(300, 6000))) for i in range(16)]
     tasks += [(e1prop.shard, ('vf.props.c13:PLAN_DUAL', ctx.shard_seed(300 + i), ctx.n(150, 3000))) for i in range(8)]
     tasks += e1prop.history_tasks(ctx, 'vf.props.c13:PLAN')
+    tasks += [(e1prop.shard, ('vf.props.c13:PLAN_VMSA', ctx.shard_seed(500 + i), ctx.n(200, 4000))) for i in range(8)]
     ctx.pmap(_dispatch, tasks)
     for b, v in list(ctx.acc.viol.items()):
         if isinstance(v['case'], dict) and 'poke' in v['case']:
